@@ -147,7 +147,17 @@ func (s *C17Spec) argv(filePath string) []string {
 	}
 	join := func(cs []string) string {
 		if s.Spaces {
-			return strings.Join(cs, ", ")
+			// blanks anywhere in a class list are documented to be ignored
+			switch s.Style % 4 {
+			case 0:
+				return strings.Join(cs, ", ")
+			case 1:
+				return strings.Join(cs, " ,")
+			case 2:
+				return " " + strings.Join(cs, ",") + " "
+			default:
+				return strings.Join(cs, " , ")
+			}
 		}
 		return strings.Join(cs, ",")
 	}
